@@ -232,8 +232,48 @@ fn emit(fam: &'static str, key: String, tree: &Expr, wrap: Option<&str>, sink: &
     sink(Case::with(fam, key.replace('\t', "\\t"), data));
 }
 
+/// Blank runs with blanks beyond space and tab (the tool takes every Unicode white-space character
+/// for a blank): alone, after and before an ASCII blank, and two of them.
+const UNI_BLANKS: [&str; 5] = ["\u{a0}", " \u{a0}", "\u{a0} ", "\t\u{2003}", "\u{2009}\u{a0}"];
+
+fn render_over(toks: &[T], g: &[Gap], choice: &[usize], over: &[(usize, &str)]) -> String {
+    let mut s = String::new();
+    for i in 0..=toks.len() {
+        match over.iter().find(|o| o.0 == i) {
+            Some(o) => s.push_str(o.1),
+            None => s.push_str(alts(g[i])[choice[i]]),
+        }
+        if i < toks.len() {
+            s.push_str(&toks[i].text());
+        }
+    }
+    s
+}
+
 fn emit_layouts(fam_dev: &'static str, toks: &[T], tree: &Expr, wrap: Option<&str>, uniform_on: bool, dev: usize, sink: &mut dyn FnMut(Case)) {
     let g = gaps(toks);
+    if dev >= 1 {
+        // one gap (two for dev >= 2) of the one-blank layout replaced by a run with other blank kinds
+        let base = uniform(&g, 1);
+        for i in 0..g.len() {
+            if g[i] == Gap::Fixed {
+                continue;
+            }
+            for a in UNI_BLANKS {
+                emit("layout-uni", render_over(toks, &g, &base, &[(i, a)]), tree, wrap, sink);
+                if dev >= 2 {
+                    for j in (i + 1)..g.len() {
+                        if g[j] == Gap::Fixed {
+                            continue;
+                        }
+                        for b in UNI_BLANKS {
+                            emit("layout-uni", render_over(toks, &g, &base, &[(i, a), (j, b)]), tree, wrap, sink);
+                        }
+                    }
+                }
+            }
+        }
+    }
     for u in 0..4 {
         let base = uniform(&g, u);
         if uniform_on {
@@ -539,6 +579,14 @@ impl Prop for C06 {
             prios(&tree, &mut v);
             v.iter().any(|p| *p != v[0])
         };
+        if case.fam == "layout-uni" {
+            // which characters count as blanks beyond space and tab is the tool's choice: a layout
+            // it refuses altogether is not judged; one it answers must mean what the plain layout means
+            match obs::eval(env.db(), &text) {
+                Some(rs) if rs.iter().any(|r| r.is_ok()) => {}
+                _ => return Verdict::DontCare("a blank of a kind other than space and tab, and the tool refuses the query"),
+            }
+        }
         if let Some(w) = wrap {
             // function-argument position: expected = RefRound of the tree's value
             let want = match ref_eval(&tree) {
@@ -585,7 +633,7 @@ impl Prop for C06 {
             "operator_sequence_length_max": 5,
             "bracketings": "all (Catalan 1,2,5,14,42)",
             "layouts": {"all_combinations_up_to_operators": 2, "slot_deviations": tier.pick(1, 2)},
-            "blank_kinds": ["none", "one space", "two spaces", "tab", "space+tab", "tab+space", "2 spaces+tab+space (mixed kinds only as 1-/2-slot deviations)"],
+            "blank_kinds": ["none", "one space", "two spaces", "tab", "space+tab", "tab+space", "2 spaces+tab+space (mixed kinds only as 1-/2-slot deviations)", "NBSP, space+NBSP, NBSP+space, tab+EM SPACE, THIN SPACE+NBSP (as 1-/2-slot deviations of the one-blank layout; judged when the tool answers)"],
         })
     }
 }
